@@ -6,7 +6,10 @@ package protocol
 // "verif"), property C05: the ref-counted pages of buffer.go.  Thin wrappers
 // only, nothing here is compiled into normal builds.
 
-import "sync/atomic"
+import (
+	"io"
+	"sync/atomic"
+)
 
 const VerifPageSize = pageSize
 
@@ -55,6 +58,9 @@ type VerifPageBuffer struct{ pb *pageBuffer }
 func VerifNewPageBuffer() *VerifPageBuffer { return &VerifPageBuffer{newPageBuffer()} }
 
 func (v *VerifPageBuffer) Write(b []byte) (int, error) { return v.pb.Write(b) }
+
+// ReadFrom forwards to pageBuffer.ReadFrom (the refill loop over pooled pages).
+func (v *VerifPageBuffer) ReadFrom(r io.Reader) (int64, error) { return v.pb.ReadFrom(r) }
 
 func (v *VerifPageBuffer) Size() int64 { return v.pb.Size() }
 
